@@ -359,6 +359,7 @@ func (a *Act) blockIn(b *ssa.BasicBlock) *State {
 		prev := tr.heapOf(hs, c)
 		if c.local {
 			hs.heap[name] = tr.newHeapBase(c, "loop_"+name)
+			tr.firstIterHints = append(tr.firstIterHints, Implies(hs.reach, Eq(tr.read(hs.heap[name]), tr.read(prev))))
 		} else if c.value {
 			hs.heap[name] = tr.heapFrame(prev, func(key []Term) Term { return tr.preExisting(key[0]) }, "loop_"+name)
 		} else {
